@@ -14,7 +14,7 @@ RULE = ("files produced by the independent writer of harness/ioops.py (not praat
 TRUSTED = ["oracle: the data the file was written from (harness/props/C03.py:oracle); Python codecs; the independent writer "
            "ioops.spec_write/json_write (its output is decoded back by the independent reader in the same run)"]
 ASSUMPTIONS = ["labels and names avoid the reader-splitting keywords of known finding A10 (C01 reports those)",
-               "names non-empty, single-line; no carriage returns in labels"]
+               "names non-empty; no carriage returns in labels"]
 LAYOUTS = ["long", "short", "elan", "tight", "json", "textgrid_json"]
 ENCODINGS = ["utf-8", "utf-8-sig", "utf-16", "utf-16-le-bom", "utf-16-be-bom"]
 
@@ -141,7 +141,7 @@ SAFE_LABELS = [l for l in ioops.PLAIN_LABELS if ioops.keyword_cause([l]) is None
 
 def gen_data(rnd, style):
     import props.C01 as C01
-    g = C01.despace(ioops.gen_tg(rnd, "simple" if style != "exp" else "full", labels=SAFE_LABELS + ["", ""], names=["w", "p", "t 1", "é", "n\"q"] + ioops.BLANK_NAMES), rnd)
+    g = C01.despace(ioops.gen_tg(rnd, "simple" if style != "exp" else "full", labels=SAFE_LABELS + ["", ""], names=["w", "p", "t 1", "é", "n\"q"] + ioops.BLANK_NAMES + ioops.NL_NAMES), rnd)
     d = {"lo": g["lo"], "hi": g["hi"], "tiers": g["tiers"]}
     if style == "exp":
         # make sure some numerals really use an exponent
@@ -185,6 +185,15 @@ def corpus():
                                         {"k": "P", "name": "\tq ", "es": [[0.5, "m"]], "lo": 0.0, "hi": 2.0}]}
     for layout in LAYOUTS:
         yield {"op": "open", "data": d5, "layout": layout, "style": "plain", "enc": "utf-8", "newline": "\n", "iei": True, "dup": "error", "negzero": False}
+    # A32 (fixed): tier names with line breaks in every layout
+    d6 = {"lo": 0.0, "hi": 2.0, "tiers": [{"k": "I", "name": "c\nd", "es": [[0.0, 1.0, "x"]], "lo": 0.0, "hi": 2.0},
+                                        {"k": "P", "name": " e\n f\"g\" \n", "es": [[0.5, "m"]], "lo": 0.0, "hi": 2.0}]}
+    for layout in LAYOUTS:
+        for nl in ("\n", "\r\n"):
+            yield {"op": "open", "data": d6, "layout": layout, "style": "plain", "enc": "utf-8", "newline": nl, "iei": True, "dup": "error", "negzero": False}
+    for t in ['name = "a\nb" \n', 'name = "a\nb"x\n', 'name = "a" \nxmin = 0 \n', 'name = "a\n"\n"\n', 'name = "a\nb']:
+        for da in (True, False):
+            yield {"op": "u_text", "s": t, "kw": "name", "dotall": da}
     for t in ['" a " \n', '"\ta\n "\nx', '"  ""q"" "\n', '" "\n', '""\n']:
         for st in (True, False):
             yield {"op": "u_fetchtext", "s": t, "i": 0, "anyerr": False, "strip": st}
